@@ -73,6 +73,8 @@ def key(v) -> str:
         return "+".join(parts)
     if isinstance(v, Obj):
         return "<%s>" % v.name
+    if isinstance(v, Bits):
+        return str(v.value()) if v.is_const() else "bits<%s>" % v.describe()
     if isinstance(v, (tuple, list)):
         return ("(%s)" if isinstance(v, tuple) else "[%s]") % ",".join(key(x) for x in v)
     if isinstance(v, SetV):
@@ -505,6 +507,13 @@ class SymInterp(Interp):
         return None
 
     def _h_binop(self, it, op, a, b, node):
+        a, b = _int(a), _int(b)   # constant bit values are plain ints here
+        if isinstance(a, (Sym, Lin)) and isinstance(b, int) and not isinstance(b, bool) \
+                and isinstance(op, (ast.BitAnd, ast.BitOr, ast.BitXor, ast.RShift, ast.Mod, ast.FloorDiv)):
+            return Sym(type(op).__name__, a, b)
+        if isinstance(b, (Sym, Lin)) and isinstance(a, int) and not isinstance(a, bool) \
+                and isinstance(op, (ast.BitAnd, ast.BitOr, ast.BitXor)):
+            return Sym(type(op).__name__, b, a)
         if isinstance(a, CatV) and isinstance(op, ast.Add):
             if isinstance(b, CatV):
                 return CatV(a.parts + b.parts)
